@@ -4,8 +4,8 @@
    impl_from_dict    model of the generated from_dict; calls the kernels translated from /repo
                      on every run (VerifGen.K4: get_field_alias, key_plan, allowed_keys)
    code_from_dict    kernel-free description of the same (KeyProofs.v)
-   in_domain c       no field's resolved alias is ""; the discriminator field is not "" (the excluded
-                     corner is refuted below: listed finding C09/empty-alias) *)
+   The main statement holds for every class and every input (no domain restriction since the
+   empty-string alias was repaired in /repo 7108448). *)
 From Coq Require Import List String Ascii ZArith Bool.
 From Verif Require Import Regex PyK PyK_alias KeyModel KeyImpl KeyProofs.
 From VerifGen Require Import K4.
@@ -44,21 +44,12 @@ Theorem C09_impl_is_code : forall c d, impl_from_dict c d = Ok (code_from_dict c
 Proof. exact impl_eq_code. Qed.
 Print Assumptions C09_impl_is_code.
 
-(* ---- main statement: generated code = KEYMODEL ---- *)
-Definition C09_keys_full : Prop := forall c d, impl_from_dict c d = Ok (keymodel c d).
-
-Theorem C09_keys_partial : forall c d, in_domain c = true -> impl_from_dict c d = Ok (keymodel c d).
+(* ---- main statement: generated code = KEYMODEL, for every class and every input ---- *)
+Theorem C09_keys : forall c d, impl_from_dict c d = Ok (keymodel c d).
 Proof. exact impl_eq_keymodel. Qed.
-Print Assumptions C09_keys_partial.
+Print Assumptions C09_keys.
 
-Theorem C09_keys_refuted_empty_alias : ~ C09_keys_full.
-Proof.
-  intro H. specialize (H w_empty w_empty_d).
-  destruct empty_alias_refuted as [H1 H2]. rewrite H1, H2 in H. discriminate H.
-Qed.
-Print Assumptions C09_keys_refuted_empty_alias.
-
-(* ---- what KEYMODEL says (and hence the code, inside the domain) ---- *)
+(* ---- what KEYMODEL says (and hence the code) ---- *)
 
 (* each field is read from exactly one key: the first present of [alias; name if allowed] / [name] *)
 Theorem C09_field_key : forall c d f,
@@ -101,20 +92,10 @@ Proof. exact accepted_covers_reads. Qed.
 Print Assumptions C09_accepted_covers_reads.
 
 (* the same at the level of the generated code: keys of the emitted lookups vs the emitted allowed set *)
-Definition C09_reads_allowed_full : Prop := forall c f k,
-  In f (c_fields c) -> In k (code_plan c f) -> kmem k (code_accepted c) = true.
-
-Theorem C09_reads_allowed_partial : forall c f k, in_domain c = true ->
+Theorem C09_reads_allowed : forall c f k,
   In f (c_fields c) -> In k (code_plan c f) -> kmem k (code_accepted c) = true.
 Proof. exact code_reads_allowed. Qed.
-Print Assumptions C09_reads_allowed_partial.
-
-Theorem C09_reads_allowed_refuted : ~ C09_reads_allowed_full.
-Proof.
-  intro H. destruct empty_alias_reads_not_allowed as [H1 [H2 _]].
-  specialize (H w_empty2 _ _ (or_introl eq_refl) H1). rewrite H2 in H. discriminate H.
-Qed.
-Print Assumptions C09_reads_allowed_refuted.
+Print Assumptions C09_reads_allowed.
 
 Theorem C09_extra_members : forall c d k,
   In k (extra_keys c d) <-> In k (keys d) /\ ~ In k (accepted c).
@@ -138,15 +119,20 @@ Proof. exact forbidden_reported. Qed.
 Print Assumptions C09_forbidden_reported.
 
 (* ---- non-vacuity: a class with all three sources, a shadowed alias (x's alias is the name of y),
-        two Alias annotations, a discriminator; it is in the domain and exercises every rule ---- *)
+        two Alias annotations, a discriminator; it exercises every rule ---- *)
 Definition ex_c (allow forbid: bool) : cls :=
   mkC [mkF "x" None (Some [AAlias "a"; AOther; AAlias "y"]) false;
        mkF "y" (Some "m") (Some [AAlias "n"]) false;
        mkF "z" None None true]
       [("y", "c"); ("z", "cz")] allow forbid (Some (Some "kind")).
 
-Example C09_nonvacuous_domain : in_domain (ex_c true true) = true /\ in_domain (ex_c false false) = true.
-Proof. split; reflexivity. Qed.
+(* the empty string is an alias like any other *)
+Example C09_nonvacuous_empty_alias :
+  impl_from_dict w_empty w_empty_d = Ok (OInst [("x", Some (KeyS "", 1%Z))])
+  /\ keymodel w_empty w_empty_d = OInst [("x", Some (KeyS "", 1%Z))]
+  /\ impl_from_dict (mkC [mkF "x" (Some "") None false] [] true true None) [(KeyS "", 1%Z)]
+     = Ok (OInst [("x", Some (KeyS "", 1%Z))]).
+Proof. exact empty_alias_is_an_alias. Qed.
 
 Example C09_nonvacuous_aliases :
   map (alias_of (ex_c true true)) (c_fields (ex_c true true)) = [Some "y"; Some "m"; Some "cz"].
